@@ -287,15 +287,17 @@ func (c *reusableConn) closeWithErr(err error) {
 		err = net.ErrClosed
 	}
 	c.closeOnce.Do(func() {
-		c.t.m.Lock()
-		delete(c.t.conns, c)
-		delete(c.t.idleConns, c)
-		c.t.m.Unlock()
-
 		c.closeErr = err
 		c.c.Close()
 		close(c.closeNotify)
 	})
+
+	// Note: Don't lock t.m inside closeOnce. ReuseConnTransport.Close() calls
+	// closeWithErrByTransport() (which waits for closeOnce) while holding t.m.
+	c.t.m.Lock()
+	delete(c.t.conns, c)
+	delete(c.t.idleConns, c)
+	c.t.m.Unlock()
 }
 
 func (c *reusableConn) closeWithErrByTransport(err error) {
